@@ -187,7 +187,7 @@ def mixed_specs(ctx):
                 yield make_spec(axis, retain, sizes, 2, kinds=kinds)
 
 
-def make_spec(axis, retain, sizes, n_opp, share_labels=False, int_labels=False, kinds=None):
+def make_spec(axis, retain, sizes, n_opp, share_labels=False, int_labels=False, kinds=None, opp_labels=None, zero_based=False):
     members = []
     cell = 10
     k = 0
@@ -197,14 +197,14 @@ def make_spec(axis, retain, sizes, n_opp, share_labels=False, int_labels=False, 
             if share_labels:
                 ls.append(j + 1 if int_labels else f'r{j}')
             else:
-                ls.append(100 + k if int_labels else f'r{k}')
+                ls.append((k if zero_based else 100 + k) if int_labels else f'r{k}')
             k += 1
         lines = []
         for j in range(size):
             lines.append([_CELL[kinds[i] if kinds else 'int'](c) for c in range(cell, cell + n_opp)])
             cell += n_opp
         members.append((f'f{i}', ls, lines, f'f{i}'))
-    opp = [f'c{j}' for j in range(n_opp)]
+    opp = list(opp_labels) if opp_labels is not None else [f'c{j}' for j in range(n_opp)]
     spec = QSpec(axis, retain, members, opp)
     spec.kinds = kinds
     return spec
@@ -686,6 +686,60 @@ def loc_cases(ctx):
                        s=f'qs_eqb (S_extract_loc {qlit} {lkey_coq(lk)} {lkey_coq(ok)}) {out}',
                        py_fail=py_fail, tags=tags, nontrivial=spans >= 2 or lk[0] == 'one' or ok[0] == 'one',
                        key=f'loc{spec_key(spec)}{lk}{ok}{via_getitem}')
+
+
+# ---------------------------------------------------------------------------- two-part label selection with FALSY labels
+FALSY_OPP = [[0, 1, 2], [0.0, 1.5], [False, True], ['', 'a', 'b'], [2, 0, 1]]
+
+
+def falsy_loc_cases(ctx):
+    """quilt.loc[sel, opp] where the opposite key is a valid label that is falsy in Python (0, 0.0, False, '') or an empty
+    list: it must not be taken for `no key given`.  Every two-part form, both axes, both label modes; the kind of result
+    (element / Series / Frame) and its labels are part of the observation; cross-checked against the concatenated Frame."""
+    for oi, opp_labels in enumerate(FALSY_OPP):
+        for axis in (0, 1):
+            for retain in (False, True):
+                sizes = [(2, 1), (1, 2, 1), (3,)][(oi + axis) % 3]
+                zero = (oi % 2 == 0) and not retain
+                spec = make_spec(axis, retain, sizes, len(opp_labels), opp_labels=opp_labels, int_labels=zero, zero_based=zero)
+                q, frames = make_quilt(spec, ctx.rng)
+                cf = concat_frame(spec, frames)
+                labels = out_labels(spec)
+                qlit = spec.coq()
+                sels = [('one', labels[0]), ('one', labels[-1]), ('range', labels[0], labels[-1]), ('range', labels[1 % len(labels)], labels[-1]),
+                        ('many', [labels[0], labels[-1]]), ('many', [labels[-1]]), ('all',)]
+                opps = [('one', l) for l in opp_labels] + [('many', []), ('many', [opp_labels[0]]), ('many', [opp_labels[-1], opp_labels[0]]),
+                                                          ('range', opp_labels[0], opp_labels[-1]), ('range', opp_labels[0], opp_labels[0]), ('all',)]
+                for lk in sels:
+                    for ok in opps:
+                        psel, popp = lkey_py(lk, spec.retain), lkey_py(ok, False)
+                        pykey = (psel, popp) if axis == 0 else (popp, psel)
+                        out, js, r = observe(lambda: q.loc[pykey], axis)
+                        out2, js2, _ = observe(lambda: cf.loc[pykey], axis)
+                        ps, is_all = lkey_positions(lk, labels)
+                        finding = classify_ps(spec, ps, is_all)
+                        spans = len({spec.owners()[p_] for p_ in ps}) if ps else 0
+                        empty_opp = ok == ('many', [])
+                        m_ok = True
+                        if finding is None and empty_opp and lk[0] != 'one' and spans >= 2 and axis == 0:
+                            finding, m_ok = 'C19-empty-opposite-selection', False      # Frame.from_concat of column-less parts (C11): not modelled
+                        a, b_ = dict(js), dict(js2)
+                        if a.get('kind') == 'Frame':
+                            a.pop('name', None)
+                        if b_.get('kind') == 'Frame':
+                            b_.pop('name', None)
+                        py_fail = None
+                        if finding is None and _jsonable(a) != _jsonable(b_):
+                            py_fail = f'quilt.loc gives {_jsonable(a)}, the concatenated Frame gives {_jsonable(b_)}'
+                        tags = {'op': 'loc-falsy', 'axis': axis, 'retain': retain, 'sel': lk[0], 'opp': ok[0], 'opp_label_kind': type(opp_labels[0]).__name__}
+                        if finding:
+                            tags['finding'] = finding
+                        ctx.count('falsy:opp=' + type(opp_labels[0]).__name__, 'falsy:form=' + lk[0] + 'x' + ok[0], 'falsy-out:' + (js.get('kind') or js.get('error')))
+                        yield Case('api:quilt.loc-falsy', {'call': 'quilt.loc[row_key, column_key]', 'quilt': spec.desc(), 'sel_key(along quilt axis)': _jsonable(list(lk)),
+                                                           'opposite_key': _jsonable(list(ok)), 'observed': _jsonable(js)},
+                                   m=f'qm_eqb (M_extract_loc {qlit} {lkey_coq(lk)} {lkey_coq(ok)}) {out}' if m_ok else None,
+                                   s=f'qs_eqb (S_extract_loc {qlit} {lkey_coq(lk)} {lkey_coq(ok)}) {out}',
+                                   py_fail=py_fail, tags=tags, nontrivial=True, key=f'falsy{oi}{axis}{retain}{lk}{ok}')
 
 
 # ---------------------------------------------------------------------------- iteration
@@ -1619,6 +1673,7 @@ def cases(ctx):
     yield from split_model_cases(iloc_cases(ctx))
     yield from split_model_cases(labels_cases(ctx))
     yield from split_model_cases(loc_cases(ctx))
+    yield from split_model_cases(falsy_loc_cases(ctx))
     yield from split_model_cases(iter_cases(ctx))
     yield from split_model_cases(window_cases(ctx))
     yield from split_model_cases(store_cases(ctx))
